@@ -26,8 +26,15 @@ var syncOps = map[string]bool{
 	"Err": true, "Stop": true,
 }
 
-// plain function values that are synchronisation relevant when called
-var syncCalls = map[string]bool{"cancel": true, "workerCtxCancel": true, "schedulesCtxCancel": true, "runFunction": true, "close": true}
+// plain function values that are synchronisation relevant when called, and the operations
+// of f1's own types that the concurrent models treat as steps (listed so that a change in
+// where they are called shows up in the sync-op listing; hooks precede them too)
+var syncCalls = map[string]bool{"cancel": true, "workerCtxCancel": true, "schedulesCtxCancel": true, "runFunction": true, "close": true,
+	"none": true, "take": true, "set": true, "running": true, "NextIteration": true, "MaxIterationsReached": true,
+	"IterationsExhausted": true, "RecordDroppedIteration": true, "recordDropped": true, "halt": true, "stop": true,
+	"sendJobsForExecution": true, "waitForNewJobs": true, "maxIterationsReached": true, "WaitForCompletion": true,
+	"Reset": true, "Run": true, "Trigger": true, "SnapshotProgress": true, "GetTotals": true, "Stop": true, "Start": true,
+	"Restart": true, "CollectLifetime": true, "Update": true, "drain": true, "Snapshot": true, "Record": true}
 
 const hookImport = "github.com/form3tech-oss/f1/v2/internal/verifh/hook"
 
